@@ -30,6 +30,16 @@ const RELS: &[MethodRelationship] =
   &[MethodRelationship::Authentication, MethodRelationship::AssertionMethod, MethodRelationship::KeyAgreement, MethodRelationship::CapabilityDelegation, MethodRelationship::CapabilityInvocation];
 const QUERIES: &[&str] = &["#ed", "ed", "#key-1", "", "#", "did:example:123#ed", "did:", "did:é#é", "é", "#é#", "?a#b", "/p#f", "did:example:123", "a#b#c", "#rev", "#my-service", " #ed", "#ed "];
 
+/// A query in which a multi-byte character straddles a small byte offset (fixed-offset slicing must not split it).
+pub fn boundary_probe(rng: &mut Rng) -> String {
+  let k = rng.usize(9);
+  let lead: String = "did:exam#".chars().cycle().skip(rng.usize(3) * 9).take(k).collect();
+  let lead = if rng.bool() { lead } else { "abcdefghi"[..k].to_string() };
+  let wide = *rng.pick(&["é", "€", "😀", "\u{301}"]);
+  let tail = *rng.pick(&["", "#ed", "#key-1", ":x#ed", "é"]);
+  format!("{}{}{}", lead, wide, tail)
+}
+
 pub fn sweep_method(cx: &mut Cx, origin: &str, m: &VerificationMethod) {
   let i = In::C(origin, "VerificationMethod");
   cx.acc("VerificationMethod.getters", i, || (m.id().to_string().len(), m.controller().as_str().len(), m.type_().to_string().len(), m.properties().len(), format!("{:?}", m.data()).len()));
@@ -125,6 +135,13 @@ pub fn sweep_doc(cx: &mut Cx, w: &World, rng: &mut Rng, origin: &str, d: &CoreDo
     cx.acc("CoreDocument.resolve_service", iq, || d.resolve_service(q.as_str()).map(|s| s.id().to_string().len()));
     cx.acc("CoreDocument.resolve_revocation_bitmap", iq, || d.resolve_revocation_bitmap(DIDUrlQuery::from(q.as_str())).map(|b| b.len()).ok());
   }
+  let probes: Vec<String> = (0..4).map(|_| boundary_probe(rng)).collect();
+  for q in &probes {
+    let iq = In::C(origin, q);
+    cx.acc("CoreDocument.resolve_method", iq, || d.resolve_method(q.as_str(), None).map(|m| m.id().to_string().len()));
+    cx.acc("CoreDocument.resolve_service", iq, || d.resolve_service(q.as_str()).map(|s| s.id().to_string().len()));
+    cx.acc("CoreDocument.resolve_revocation_bitmap", iq, || d.resolve_revocation_bitmap(DIDUrlQuery::from(q.as_str())).map(|b| b.len()).ok());
+  }
   for r in d.verification_relationships().take(4) {
     cx.acc("CoreDocument.resolve_method_ref", i, || d.resolve_method_ref(r).map(|m| m.id().to_string().len()));
     cx.acc("MethodRef.sweep", i, || (r.id().to_string().len(), r.controller().is_some(), r.is_embedded(), r.is_referred(), r.clone().try_into_embedded().is_ok(), r.clone().try_into_referenced().is_ok(), r.to_json().is_ok(), format!("{:?}", r).len()));
@@ -180,7 +197,7 @@ pub fn sweep_doc(cx: &mut Cx, w: &World, rng: &mut Rng, origin: &str, d: &CoreDo
   // verify_jws against the document (attacker-chosen keys inside the document)
   if deep || rng.chance(1, 4) {
     let kids: Vec<String> = qs.clone();
-    for kid in kids.iter().rev().take(if deep { 10 } else { 3 }) {
+    for kid in probes.iter().take(2).chain(kids.iter().rev().take(if deep { 10 } else { 3 })) {
       let (alg, key) = *rng.pick(&[("EdDSA", &w.ed), ("ES256", &w.p256), ("ES256K", &w.k256)]);
       let h = format!(r#"{{"alg":"{}","kid":{}}}"#, alg, serde_json::to_string(kid).unwrap_or_default());
       let tok = sign_compact(key, &h, b"{}", SigMod::Good);
